@@ -31,6 +31,7 @@ import (
 	"github.com/atlassian/gostatsd/pkg/statsd"
 
 	"verif/mon"
+	"verif/netx"
 )
 
 const serverWatchdog = watchdog / 4
@@ -167,7 +168,7 @@ func genServerScript(rng *rand.Rand, k int) []srvStep {
 }
 
 func freeAddr() (string, error) {
-	l, err := net.Listen("tcp", "127.0.0.1:0")
+	l, err := net.Listen("tcp", netx.IP()+":0") // this process's own loopback address: no other process can be given the port
 	if err != nil {
 		return "", err
 	}
